@@ -224,6 +224,22 @@ class SimRunner:
             d = {"weight": weight, "unit": unit, "success": True}
             if spec.get("runner_throughput") is not None:
                 d["throughput"] = spec["runner_throughput"]
+            if spec.get("deps"):
+                # what runner.Composite returns: one timing per sub-request
+                d["dependent_timing"] = [
+                    {
+                        "success": True,
+                        "dependent_timing": {
+                            "operation": f"{task}-sub{i}",
+                            "operation-type": "sim-sub",
+                            "absolute_time": kernel.EPOCH + x["t_start"],
+                            "request_start": x["pc_start"],
+                            "request_end": x["pc_end"],
+                            "service_time": x["pc_end"] - x["pc_start"],
+                        },
+                    }
+                    for i, x in enumerate(wires)
+                ]
             return d
         if outcome == "fail-dict":
             return {"weight": weight, "unit": unit, "success": False, "error-type": "sim"}
